@@ -180,7 +180,7 @@ _HCOBS_NOTE = ("Trusted: Lean kernel + 3 standard axioms; the correspondence har
 
 SPECS["C01"] = dict(
     title="HCOBS round trip: decoding an encoded message returns the original bytes",
-    lean_modules=["Woodpile.Props.C01"],
+    lean_modules=["Woodpile.Props.C01", "Woodpile.Props.C01W"],
     theorems=[
         "Woodpile.Props.C01.enc_impl_refines_spec",
         "Woodpile.Props.C01.enc_split_independent",
@@ -197,6 +197,14 @@ SPECS["C01"] = dict(
         "Woodpile.Props.C01.dec_refines_spec_drained",
         "Woodpile.Props.C01.roundtrip_given_spec",
         "Woodpile.Props.C01.roundtrip",
+        "Woodpile.Props.C01W.encWorld_no_panic_partial",
+        "Woodpile.Props.C01W.encWorld_is_ops_partial",
+        "Woodpile.Props.C01W.encWorld_abs_between_calls_partial",
+        "Woodpile.Props.C01W.encWorld_abs_partial",
+        "Woodpile.Props.C01W.enc_world_output_partial",
+        "Woodpile.Props.C01W.world_roundtrip_partial",
+        "Woodpile.Props.C01W.dec_world_output_partial",
+        "Woodpile.Props.C01W.world_roundtrip_both_partial",
     ],
     families=[dict(name="hcobs_enc", quick=8000, thorough=200000, search=40000), dict(name="hcobs_dec", quick=8000, thorough=200000, search=40000)],
     vtags=["C01"],
@@ -213,10 +221,11 @@ SPECS["C01"] = dict(
     trusted_base=_HCOBS_TB,
     assumptions=_HCOBS_ASSUME,
 )
+SPECS["C01"]["level_text"] += (" Composition (Props/C01W, track enccomp): the same encoder/decoder state machines issuing the structural OwningIovec model's calls (Model/EncWorld, what family codecw runs against the real Encoder/Decoder) never panic, keep the iovec's abstraction equal to the abstract Pipe run of the same emits up to the renaming of placeholder ids, and drained ++ flatten = Spec.encode / the decoded data for every segmentation, borrow/copy method choice and drain schedule; `_partial` = the anchored input method is outside the proved iovec vocabulary.")
 
 SPECS["C02"] = dict(
     title="HCOBS output never contains the stuff sequence, is split-independent, bounded",
-    lean_modules=["Woodpile.Props.C02", "Woodpile.Props.C01"],
+    lean_modules=["Woodpile.Props.C02", "Woodpile.Props.C01", "Woodpile.Props.C02W"],
     theorems=[
         "Woodpile.Props.C02.prod_params_valid",
         "Woodpile.Props.C02.stuff_consts",
@@ -242,6 +251,9 @@ SPECS["C02"] = dict(
         "Woodpile.Props.C01.dec_refines_spec_drained",
         "Woodpile.Props.C01.roundtrip_given_spec",
         "Woodpile.Props.C01.roundtrip",
+        "Woodpile.Props.C02W.enc_world_no_stuff_partial",
+        "Woodpile.Props.C02W.enc_world_split_independent_partial",
+        "Woodpile.Props.C02W.enc_world_length_bound_prod_partial",
     ],
     families=[dict(name="hcobs_enc", quick=8000, thorough=200000, search=40000)],
     vtags=["C02"],
@@ -256,6 +268,7 @@ SPECS["C02"] = dict(
     trusted_base=_HCOBS_TB,
     assumptions=_HCOBS_ASSUME,
 )
+SPECS["C02"]["level_text"] += (' Props/C02W restates no-stuff, split independence and the production length bound on the structural iovec model driven by the encoder (drained ++ bytes of all slices), `_partial` = borrow/copy methods only.')
 
 SPECS["C07"] = dict(
     title="HCOBS wire format: canonical encoder, decoder accepts exactly the format",
@@ -410,7 +423,7 @@ SPECS["C16"] = dict(
 # C09: abstract half on Pipe (Props/C09.lean, track himpl) + structural half through the codecw family
 SPECS["C09"] = dict(
     title="Streaming codecs: drained output is a prefix of the result; lag is bounded",
-    lean_modules=["Woodpile.Props.C09"],
+    lean_modules=["Woodpile.Props.C09", "Woodpile.Props.C09W"],
     theorems=[
         "Woodpile.Props.C09.drain_commutes",
         "Woodpile.Props.C09.drain_commutes_step",
@@ -420,6 +433,11 @@ SPECS["C09"] = dict(
         "Woodpile.Props.C09.enc_lag_pipe",
         "Woodpile.Props.C09.dec_appends_only",
         "Woodpile.Props.C09.dec_lag_zero",
+        "Woodpile.Props.C09W.enc_lag_struct_partial",
+        "Woodpile.Props.C09W.enc_lag_le_partial",
+        "Woodpile.Props.C09W.enc_lag_le_prod_partial",
+        "Woodpile.Props.C09W.alloc_cap_le_prod",
+        "Woodpile.Props.C09W.dec_lag_zero_world_partial",
     ],
     families=[dict(name="hcobs_enc", quick=3000, thorough=100000, search=20000),
               dict(name="hcobs_dec", quick=2000, thorough=60000, search=20000),
@@ -439,6 +457,7 @@ SPECS["C09"] = dict(
     trusted_base=["abstract Pipe as specification of OwningIovec (tied by C03/C04)"],
     assumptions=["64-bit usize"],
 )
+SPECS["C09"]["level_text"] += (' Props/C09W (track enccomp): structural lag of the encoder-driven iovec model between calls = offset of the pending header in its (owned, single-chunk) slice + header + current chunk, exactly; the constant bound 2^20+64008+2 is proved given the arena in-capacity invariant (hypothesis; ArenaInv of track iovinv) and findHintSize <= 2^20 for requests < 2^20 (proved from the extracted tuning); decoder lag 0 on the iovec; `_partial` = borrow/copy methods only.')
 
 # ---- track abt: AtomicBaseTime (C13, C18) -----------------------------------------------------------
 _ABT_TRUST = ("Partial by nature: the theorems are about two memory-model MACHINES (sequentially consistent interleaving; a "
